@@ -78,7 +78,11 @@ pub(crate) fn leading_whitespace(value: u64) -> u32 {
     let mask2 = repeat_byte(b'\n');
     let res1 = value ^ mask1;
     let res2 = value ^ mask2;
-    (res1 & res2).trailing_zeros() >> 3
+    // 0x80 in every byte that is neither a tab nor a newline
+    let lo = repeat_byte(0x7f);
+    let nz1 = ((res1 & lo) + lo) | res1;
+    let nz2 = ((res2 & lo) + lo) | res2;
+    (nz1 & nz2 & repeat_byte(0x80)).trailing_zeros() >> 3
 }
 
 #[cfg(test)]
